@@ -364,7 +364,7 @@ pub fn run(args: &Args) -> Report {
         for s in &styles {
             for state in [State::Idle, State::PendingAccepts, State::OpenStreams] {
                 i += 1;
-                if !args.thorough && i % 2 == 0 && !matches!(s, Style::Fin | Style::Reset { .. }) {
+                if false && !args.thorough && i % 2 == 0 && !matches!(s, Style::Fin | Style::Reset { .. }) {
                     continue;
                 }
                 cases.push((role, s.clone(), state));
